@@ -50,7 +50,7 @@ class C10(Check):
         "and_/or_/not_, flatten, entity/set_of over variables and derived expressions) over an instrumented world: "
         "every attribute is a logging property, methods/predicates/symbolic functions log, every domain is a "
         "logging one-shot generator; k in 0..#results results are pulled. Oracle (event log): (1) the log is empty "
-        "after construction; (2) the first k results equal the first k of a full run of a fresh identical query; "
+        "after construction (also for a pattern-matching query whose domain and keyword-argument variable are generators); (2) the first k results equal the first k of a full run of a fresh identical query; "
         "(3) the k-run's log equals the full run's log cut at its k-th yield; (4) single-variable queries pull at "
         "most index(k-th satisfying element)+2 domain elements; (4b) a selected variable that occurs in no condition is "
         "pulled at most up to the furthest element the first k results mention, +2 (while no value of it repeats among them); (5) a single-variable query over an unbounded "
@@ -67,6 +67,42 @@ class C10(Check):
         "quick": dict(examples=300, shards=16, seconds=75),
         "thorough": dict(examples=12000, shards=16, seconds=1200),
     }
+
+    def setup_worker(self):
+        from krrood.entity_query_language.symbol_graph import SymbolGraph
+
+        from ..models import match_world  # noqa: F401  (Symbol classes for the pattern-matching form)
+
+        SymbolGraph().clear()
+        SymbolGraph()
+
+    @staticmethod
+    def match_query_built_lazily(n_parts):
+        """entity_matching(Part, <generator>)(sub=<variable over a generator>): building the query must not advance
+        either generator; returns (pulls at construction, results pulled afterwards are sane)"""
+        from krrood.entity_query_language.entity import let
+        from krrood.entity_query_language.match import entity_matching
+        from krrood.entity_query_language.quantify_entity import an
+
+        from ..models.match_world import Part
+
+        parts = [Part(tag=i, label=str(i)) for i in range(n_parts)]
+        for i, p in enumerate(parts):
+            p.sub = parts[(i + 1) % n_parts]
+        pulls = []
+
+        def gen(tag, values):
+            for v in values:
+                pulls.append(tag)
+                yield v
+
+        admissible = [parts[:1], parts[1: max(2, n_parts // 2)]]  # the variable ranges over lists of admissible values
+        wanted = let(list, gen("kwarg", admissible))
+        query = an(entity_matching(Part, gen("domain", parts))(sub=wanted))
+        at_construction = list(pulls)
+        got = {id(r) for r in query.evaluate()}
+        want = {id(p) for p in parts if any(p.sub is w for lst in admissible for w in lst)}
+        return at_construction, got == want
 
     def cfg(self, tier):
         c = gen.Cfg(allow_quantifiers=False, allow_subquery=False, allow_noise=False, min_dom=1, allow_empty_domain=False)
@@ -138,6 +174,14 @@ class C10(Check):
 
         if b0 or b1:
             return bad("evaluated_at_construction", f"log after construction: {(b0 or b1)[:5]}")
+        try:
+            pulled, sane = self.match_query_built_lazily(max(2, len(ir["world"]["objs"])))
+        except Exception as exc:
+            return crash(exc, "pattern-matching query over generators", classes=classes)
+        if pulled:
+            return bad("evaluated_at_construction", f"building entity_matching(T, generator)(attr=variable over a generator) pulled {pulled}")
+        if not sane:
+            return bad("not_a_prefix", "the pattern-matching query over generator domains returned wrong elements")
         if part != full[:k]:
             return bad("not_a_prefix", f"first {k} results {part} vs full run {full[:k]}")
         cut = fmarks[k - 1] if k > 0 else 0
